@@ -229,6 +229,15 @@ def gen(seed, world=1, profile='c03', ntasks=None, rep_pct=0, nested=False, dont
             t = make_task(tp, pool, sleep=(rng.choice([0] * 8 + [50, 200])))
             if t is None: break
             i += 1
+        if profile == 'c17' and world > 1:
+            # C17: for a seeded majority of tiles the last inserted writer runs on a rank that does not own the tile
+            for tp in range(ntp):
+                for g in usable(tp):
+                    if nstate.get(g) == 'fresh' or rng.randrange(100) >= 70: continue
+                    away = [q for q in range(world) if q != s.tiles[g][2] % world]
+                    s.add_task(tp, [(g, rng.choice([W, RW, RW]), 0)], place=rng.choice(away), prio=rng.choice([0, 3]))
+                    if read_pct and rng.randrange(100) < read_pct:
+                        s.add_task(tp, [(g, R, 0)], place=rng.randrange(world))       # a reader after the last writer
         # ---- end of round: flushes, waits, check
         last = rd == rounds - 1
         flushed = []
@@ -331,14 +340,27 @@ def judge(ctx, prop, r, txt, what, feature=None):
             foreign.append(o)
         else:
             keep.append(o)
+    if feature:
+        for o in keep:      # harness keys of repeated-tile tasks already carry the feature prefix
+            if o.get('type') == 'violation' and o.get('key', '').startswith(feature + ':'): o['key'] = o['key'][len(feature) + 1:]
     r.objs = keep
     # a failed assert shows up as an ASan "ABRT" report (handle_abort=1): key it by the assertion, not by ASan's frames
     if any('AddressSanitizer: ABRT' in b for b in r.san) and (vfcore.assert_key(r.stderr) or vfcore.assert_key(r.stdout)):
         r.san = [b for b in r.san if 'AddressSanitizer: ABRT' not in b]
         if r.rc in (0, 1) and r.signal is None: r.signal = 6
+    if r.signal in (9, 15) and not r.san and not (vfcore.assert_key(r.stderr) or vfcore.assert_key(r.stdout)) and not any(o.get('type') == 'violation' for o in r.objs):
+        ctx.inconclusive_case('%s was killed from outside (signal %d); the runtime never raises it itself' % (what, r.signal))
+        return 'inconclusive', None
     st = ctx.absorb(r, what, feature, files={'script.txt': txt})
     if foreign:
         ctx.add_cov('foreign_oracle_hits', len(foreign))
+        try:        # keep the witness for the owner of the other property
+            d = os.path.join(vfcore.REPLAYS, '%s-foreign-%s' % (prop, re.sub(r'[^A-Za-z0-9_.+-]+', '_', foreign[0].get('key', 'x'))[:60]))
+            os.makedirs(d, exist_ok=True)
+            open(os.path.join(d, 'script.txt'), 'w').write(txt)
+            open(os.path.join(d, 'verdict.txt'), 'w').write(what + '\n' + '\n'.join(json.dumps(o) for o in foreign) + '\ncmd: %s\nenv: %s\n' % (r.cmd, r.env))
+        except OSError:
+            pass
         ks = sorted(set(o.get('key', '?') for o in foreign))
         print('NOTE %s: oracle(s) of another E2 property fired in this run (%s): %s — see the check of that property' % (prop, what, ', '.join(ks)[:300]))
         if st == 'ok': st = 'foreign'
@@ -388,6 +410,7 @@ class Campaign:
             return job
         st, summ = judge(ctx, self.prop, r, txt, what, feature)
         job['status'] = st; job['result'] = r; job['summary'] = summ
+        ctx.add_cov('wall_s_%s' % job.get('kind', 'x'), round(r.wall, 1))
         return job
 
     def run(self, jobs, width):
